@@ -101,7 +101,7 @@ func buildTable(d *tbl.Driver, r *gen.Rand) (buckets []int) {
 // C09 — replies propagate only good contacts, nearest buckets first, right family.
 func c09(c *evid.Ctx) {
 	r := c.R.Fork("c09")
-	nt := c.Scale(150, 10000)
+	nt := c.Scale(150, 2500)
 	nq := 40
 	if !c.Quick() {
 		nq = 100
